@@ -176,6 +176,14 @@ theorem OKexc.modify_same {now : Int} {i j : Nat} {a : Array α} (h : OKexc R no
       exact ⟨by rw [hh]; exact this.1, fun hne => ⟨by rw [hh]; exact this.1, by rw [hr, hh, hv]; exact (this.2 hne).2⟩⟩
   · exact h k z hz
 
+/-- the exception is in fact fine -/
+theorem OKexc.upgrade {now : Int} {i : Nat} {a : Array α} (h : OKexc R now i a)
+    (hi : ∀ y, a[i]? = some y → RecOK R now y) : ArrAll (RecOK R now) a := by
+  intro j x hx
+  by_cases hji : j = i
+  · subst hji; exact hi x hx
+  · exact (h j x hx).2 hji
+
 theorem ArrAll.mono {β : Type} {P Q : β → Prop} {a : Array β} (h : ArrAll P a) (hpq : ∀ x, P x → Q x) : ArrAll Q a :=
   fun i x hx => hpq x (h i x hx)
 
